@@ -18,27 +18,230 @@ def Valuation.update (ρ : Valuation) (k : Nat) (n : String) (T : Ty) (v : Nat) 
 
 theorem Admissible.update {M : Model} {ρ : Valuation} (hρ : Admissible M ρ) (k : Nat) (n : String)
     (T : Ty) (v : Nat) (hv : v < M.size T) : Admissible M (ρ.update k n T v) := by
-  sorry
+  intro k' n' T'
+  unfold Valuation.update
+  split
+  · next h => rw [h.2.2]; exact hv
+  · exact hρ k' n' T'
+
+/-- a `varKey` is a schematic variable (kind 0) or an ordinary variable (kind 1) -/
+theorem varKey_cases {x : Term} {k : Nat} {n : String} {T : Ty} (hx : varKey x = some (k, n, T)) :
+    (x = .svar n T ∧ k = 0) ∨ (x = .var n T ∧ k = 1) := by
+  cases x <;> simp [varKey] at hx
+  · obtain ⟨rfl, rfl, rfl⟩ := hx; exact Or.inl ⟨rfl, rfl⟩
+  · obtain ⟨rfl, rfl, rfl⟩ := hx; exact Or.inr ⟨rfl, rfl⟩
+
+theorem constVal_update (M : Model) (ρ : Valuation) (k : Nat) (n : String) (T : Ty) (v : Nat)
+    (hk : k ≠ 2) (m : String) (S : Ty) :
+    constVal M (ρ.update k n T v) m S = constVal M ρ m S := by
+  unfold constVal
+  split <;> try rfl
+  simp only [Valuation.update]
+  rw [if_neg]
+  intro h
+  exact hk h.1.symm
 
 /-- a variable that does not occur in `t` (`occurs_var` answers `False`) does not influence it -/
 theorem sem_update_of_not_occurs (M : Model) (ρ : Valuation) (x : Term) (k : Nat) (n : String) (T : Ty)
     (hx : varKey x = some (k, n, T)) (t : Term) (h : Term.occursVar x t = false) (v : Nat)
     (bd : List Ty) (env : List Nat) :
     sem M (ρ.update k n T v) bd env t = sem M ρ bd env t := by
-  sorry
+  induction t generalizing bd env with
+  | svar m S =>
+    simp only [sem, Valuation.update]
+    rcases varKey_cases hx with ⟨rfl, rfl⟩ | ⟨rfl, rfl⟩
+    · simp [Term.occursVar, Term.aeq] at h
+      rw [if_neg]
+      intro h'
+      exact h h'.2.1 h'.2.2
+    · simp
+  | var m S =>
+    simp only [sem, Valuation.update]
+    rcases varKey_cases hx with ⟨rfl, rfl⟩ | ⟨rfl, rfl⟩
+    · simp
+    · simp [Term.occursVar, Term.aeq] at h
+      rw [if_neg]
+      intro h'
+      exact h h'.2.1 h'.2.2
+  | const m S =>
+    simp only [sem]
+    apply constVal_update
+    rcases varKey_cases hx with ⟨_, rfl⟩ | ⟨_, rfl⟩ <;> decide
+  | comb f a ihf iha =>
+    simp only [Term.occursVar, Bool.or_eq_false_iff] at h
+    simp only [sem, ihf h.1, iha h.2]
+  | abs y U b ih =>
+    simp only [Term.occursVar] at h
+    simp only [sem, ih h]
+  | bound i => simp only [sem]
+
+theorem Term.abstractOverAt_svar {x : Term} {d : Nat} {m : String} {S : Ty} {t' : Term}
+    (h : Term.abstractOverAt x d (.svar m S) = .ok t') :
+    (x = .svar m S ∧ t' = .bound d) ∨ (x ≠ .svar m S ∧ t' = .svar m S) := by
+  cases x with
+  | svar xn xT =>
+    simp only [Term.abstractOverAt] at h
+    by_cases hm : m = xn
+    · by_cases hS : S = xT
+      · subst hm; subst hS
+        simp at h
+        exact Or.inl ⟨rfl, h.symm⟩
+      · simp [hm, hS] at h
+    · simp [hm] at h
+      refine Or.inr ⟨?_, h.symm⟩
+      intro e; injection e with e1 e2; exact hm e1.symm
+  | _ =>
+    simp only [Term.abstractOverAt] at h
+    injection h with h
+    exact Or.inr ⟨(by intro e; cases e), h.symm⟩
+
+theorem Term.abstractOverAt_var {x : Term} {d : Nat} {m : String} {S : Ty} {t' : Term}
+    (h : Term.abstractOverAt x d (.var m S) = .ok t') :
+    (x = .var m S ∧ t' = .bound d) ∨ (x ≠ .var m S ∧ t' = .var m S) := by
+  cases x with
+  | var xn xT =>
+    simp only [Term.abstractOverAt] at h
+    by_cases hm : m = xn
+    · by_cases hS : S = xT
+      · subst hm; subst hS
+        simp at h
+        exact Or.inl ⟨rfl, h.symm⟩
+      · simp [hm, hS] at h
+    · simp [hm] at h
+      refine Or.inr ⟨?_, h.symm⟩
+      intro e; injection e with e1 e2; exact hm e1.symm
+  | _ =>
+    simp only [Term.abstractOverAt] at h
+    injection h with h
+    exact Or.inr ⟨(by intro e; cases e), h.symm⟩
+
+theorem Term.abstractOverAt_comb {x : Term} {d : Nat} {f a t' : Term}
+    (h : Term.abstractOverAt x d (.comb f a) = .ok t') :
+    ∃ f' a', Term.abstractOverAt x d f = .ok f' ∧ Term.abstractOverAt x d a = .ok a' ∧
+      t' = .comb f' a' := by
+  simp only [Term.abstractOverAt, bind, Except.bind] at h
+  cases hf : Term.abstractOverAt x d f with
+  | error e => rw [hf] at h; cases h
+  | ok f' =>
+    cases ha : Term.abstractOverAt x d a with
+    | error e => rw [hf, ha] at h; cases h
+    | ok a' =>
+      rw [hf, ha] at h
+      injection h with h
+      exact ⟨f', a', rfl, rfl, h.symm⟩
+
+theorem Term.abstractOverAt_abs {x : Term} {d : Nat} {y : String} {U : Ty} {b t' : Term}
+    (h : Term.abstractOverAt x d (.abs y U b) = .ok t') :
+    ∃ b', Term.abstractOverAt x (d + 1) b = .ok b' ∧ t' = .abs y U b' := by
+  simp only [Term.abstractOverAt, bind, Except.bind] at h
+  cases hb : Term.abstractOverAt x (d + 1) b with
+  | error e => rw [hb] at h; cases h
+  | ok b' =>
+    rw [hb] at h
+    injection h with h
+    exact ⟨b', rfl, h.symm⟩
+
+theorem getElem?_append_singleton_length {α : Type} (l : List α) (a : α) :
+    (l ++ [a])[l.length]? = some a := by
+  simp
 
 /-- `abstract_over` does not change the lax type: the new bound variable has the type of `x` -/
 theorem Term.getType_abstractOverAt (x : Term) (k : Nat) (n : String) (T : Ty)
     (hx : varKey x = some (k, n, T)) (lo : List Ty) (t t' : Term)
     (h : Term.abstractOverAt x lo.length t = .ok t') (hc : Term.isOpenAt lo.length t = false) :
     Term.getType (lo ++ [T]) t' = Term.getType lo t := by
-  sorry
+  induction t generalizing lo t' with
+  | svar m S =>
+    rcases Term.abstractOverAt_svar h with ⟨rfl, rfl⟩ | ⟨_, rfl⟩
+    · simp only [varKey, Option.some.injEq, Prod.mk.injEq] at hx
+      obtain ⟨_, _, rfl⟩ := hx
+      simp [Term.getType]
+    · rfl
+  | var m S =>
+    rcases Term.abstractOverAt_var h with ⟨rfl, rfl⟩ | ⟨_, rfl⟩
+    · simp only [varKey, Option.some.injEq, Prod.mk.injEq] at hx
+      obtain ⟨_, _, rfl⟩ := hx
+      simp [Term.getType]
+    · rfl
+  | const m S =>
+    simp only [Term.abstractOverAt] at h
+    injection h with h
+    subst h
+    rfl
+  | comb f a ihf iha =>
+    obtain ⟨f', a', hf, ha, rfl⟩ := Term.abstractOverAt_comb h
+    simp only [Term.isOpenAt, Bool.or_eq_false_iff] at hc
+    simp only [Term.getType, ihf lo f' hf hc.1]
+  | abs y U b ih =>
+    obtain ⟨b', hb, rfl⟩ := Term.abstractOverAt_abs h
+    simp only [Term.isOpenAt] at hc
+    have := ih (U :: lo) b' hb hc
+    simp only [Term.getType]
+    rw [← List.cons_append, this]
+  | bound i =>
+    simp only [Term.abstractOverAt] at h
+    injection h with h
+    subst h
+    simp only [Term.isOpenAt, ge_iff_le, decide_eq_false_iff_not, Nat.not_le] at hc
+    simp only [Term.getType, List.getElem?_append_left hc]
 
 theorem Term.checkedGetType_abstractOverAt (x : Term) (k : Nat) (n : String) (T : Ty)
     (hx : varKey x = some (k, n, T)) (lo : List Ty) (t t' : Term) (S : Ty)
     (h : Term.abstractOverAt x lo.length t = .ok t') (hc : Term.checkedGetType lo t = .ok S) :
     Term.checkedGetType (lo ++ [T]) t' = .ok S := by
-  sorry
+  induction t generalizing lo t' S with
+  | svar m S' =>
+    rcases Term.abstractOverAt_svar h with ⟨rfl, rfl⟩ | ⟨_, rfl⟩
+    · simp only [varKey, Option.some.injEq, Prod.mk.injEq] at hx
+      obtain ⟨_, _, rfl⟩ := hx
+      simp only [Term.checkedGetType] at hc
+      simp [Term.checkedGetType, hc]
+    · exact hc
+  | var m S' =>
+    rcases Term.abstractOverAt_var h with ⟨rfl, rfl⟩ | ⟨_, rfl⟩
+    · simp only [varKey, Option.some.injEq, Prod.mk.injEq] at hx
+      obtain ⟨_, _, rfl⟩ := hx
+      simp only [Term.checkedGetType] at hc
+      simp [Term.checkedGetType, hc]
+    · exact hc
+  | const m S' =>
+    simp only [Term.abstractOverAt] at h
+    injection h with h
+    subst h
+    exact hc
+  | comb f a ihf iha =>
+    obtain ⟨f', a', hf, ha, rfl⟩ := Term.abstractOverAt_comb h
+    simp only [Term.checkedGetType, bind, Except.bind] at hc ⊢
+    cases hcf : Term.checkedGetType lo f with
+    | error e => simp only [hcf] at hc; cases hc
+    | ok tf =>
+      cases hca : Term.checkedGetType lo a with
+      | error e => simp only [hcf, hca] at hc; cases hc
+      | ok ta =>
+        rw [ihf lo f' tf hf hcf, iha lo a' ta ha hca]
+        simp only [hcf, hca] at hc
+        exact hc
+  | abs y U b ih =>
+    obtain ⟨b', hb, rfl⟩ := Term.abstractOverAt_abs h
+    simp only [Term.checkedGetType, bind, Except.bind] at hc ⊢
+    cases hcb : Term.checkedGetType (U :: lo) b with
+    | error e => simp only [hcb] at hc; cases hc
+    | ok tb =>
+      have := ih (U :: lo) b' tb hb hcb
+      rw [← List.cons_append, this]
+      simp only [hcb] at hc
+      exact hc
+  | bound i =>
+    simp only [Term.abstractOverAt] at h
+    injection h with h
+    subst h
+    have hi : i < lo.length := by
+      by_cases hi : i < lo.length
+      · exact hi
+      · simp only [Term.checkedGetType, List.getElem?_eq_none (Nat.le_of_not_lt hi)] at hc
+        cases hc
+    simp only [Term.checkedGetType, List.getElem?_append_left hi] at hc ⊢
+    exact hc
 
 /-- denotation of `abstract_over`: the abstracted body at value `v` is the original term under the
 valuation that sends `x` to `v` -/
@@ -47,13 +250,96 @@ theorem sem_abstractOverAt (M : Model) (ρ : Valuation) (x : Term) (k : Nat) (n 
     (t t' : Term) (h : Term.abstractOverAt x lo.length t = .ok t')
     (hc : Term.isOpenAt lo.length t = false) (v : Nat) :
     sem M ρ (lo ++ [T]) (elo ++ [v]) t' = sem M (ρ.update k n T v) lo elo t := by
-  sorry
+  induction t generalizing lo elo t' with
+  | svar m S =>
+    rcases Term.abstractOverAt_svar h with ⟨rfl, rfl⟩ | ⟨hne, rfl⟩
+    · simp only [varKey, Option.some.injEq, Prod.mk.injEq] at hx
+      obtain ⟨rfl, rfl, rfl⟩ := hx
+      simp [sem, Valuation.update, ← h1]
+    · simp only [sem, Valuation.update]
+      rw [if_neg]
+      rintro ⟨rfl, rfl, rfl⟩
+      rcases varKey_cases hx with ⟨rfl, _⟩ | ⟨_, hk⟩
+      · exact hne rfl
+      · cases hk
+  | var m S =>
+    rcases Term.abstractOverAt_var h with ⟨rfl, rfl⟩ | ⟨hne, rfl⟩
+    · simp only [varKey, Option.some.injEq, Prod.mk.injEq] at hx
+      obtain ⟨rfl, rfl, rfl⟩ := hx
+      simp [sem, Valuation.update, ← h1]
+    · simp only [sem, Valuation.update]
+      rw [if_neg]
+      rintro ⟨rfl, rfl, rfl⟩
+      rcases varKey_cases hx with ⟨_, hk⟩ | ⟨rfl, _⟩
+      · cases hk
+      · exact hne rfl
+  | const m S =>
+    simp only [Term.abstractOverAt] at h
+    injection h with h
+    subst h
+    simp only [sem]
+    symm
+    apply constVal_update
+    rcases varKey_cases hx with ⟨_, rfl⟩ | ⟨_, rfl⟩ <;> decide
+  | comb f a ihf iha =>
+    obtain ⟨f', a', hf, ha, rfl⟩ := Term.abstractOverAt_comb h
+    simp only [Term.isOpenAt, Bool.or_eq_false_iff] at hc
+    simp only [sem, Term.getType_abstractOverAt x k n T hx lo f f' hf hc.1,
+      ihf lo elo h1 f' hf hc.1, iha lo elo h1 a' ha hc.2]
+  | abs y U b ih =>
+    obtain ⟨b', hb, rfl⟩ := Term.abstractOverAt_abs h
+    simp only [Term.isOpenAt] at hc
+    have hty := Term.getType_abstractOverAt x k n T hx (U :: lo) b b' hb hc
+    have hsem : ∀ w, sem M ρ (U :: (lo ++ [T])) (w :: (elo ++ [v])) b'
+        = sem M (ρ.update k n T v) (U :: lo) (w :: elo) b := fun w =>
+      ih (U :: lo) (w :: elo) (by simp [h1]) b' hb hc
+    rw [List.cons_append] at hty
+    simp only [sem, hty, hsem]
+  | bound i =>
+    simp only [Term.abstractOverAt] at h
+    injection h with h
+    subst h
+    simp only [Term.isOpenAt, ge_iff_le, decide_eq_false_iff_not, Nat.not_le] at hc
+    simp only [sem, List.getElem?_append_left (h1 ▸ hc)]
+
+/-- inversion of `Lambda(x, t)` -/
+theorem Term.mkLambda_inv {x : Term} {k : Nat} {n : String} {T : Ty}
+    (hx : varKey x = some (k, n, T)) {t l : Term} (h : Term.mkLambda x t = .ok l) :
+    ∃ b, Term.abstractOverAt x 0 t = .ok b ∧ l = .abs n T b := by
+  have hv : Term.isVarLike x = true ∧ Term.nameOf x = n ∧ Term.typeOfAtom x = T := by
+    rcases varKey_cases hx with ⟨rfl, _⟩ | ⟨rfl, _⟩ <;> exact ⟨rfl, rfl, rfl⟩
+  simp only [Term.mkLambda, Term.abstractOver, hv.1, if_true, bind, Except.bind, hv.2.1,
+    hv.2.2] at h
+  cases hb : Term.abstractOverAt x 0 t with
+  | error e => simp only [hb] at h; cases h
+  | ok b =>
+    simp only [hb] at h
+    injection h with h
+    exact ⟨b, rfl, h.symm⟩
+
+/-- inversion of `Forall(x, t)` -/
+theorem Term.mkForall_inv {x : Term} {k : Nat} {n : String} {T : Ty}
+    (hx : varKey x = some (k, n, T)) {t q : Term} (h : Term.mkForall x t = .ok q) :
+    ∃ l, Term.mkLambda x t = .ok l ∧
+      q = .comb (.const "all" (Ty.fn (Ty.fn T Ty.bool) Ty.bool)) l := by
+  have hv : Term.isVarLike x = true ∧ Term.typeOfAtom x = T := by
+    rcases varKey_cases hx with ⟨rfl, _⟩ | ⟨rfl, _⟩ <;> exact ⟨rfl, rfl⟩
+  simp only [Term.mkForall, hv.1, if_true, bind, Except.bind, hv.2] at h
+  cases hl : Term.mkLambda x t with
+  | error e => simp only [hl] at h; cases h
+  | ok l =>
+    simp only [hl] at h
+    injection h with h
+    exact ⟨l, rfl, h.symm⟩
 
 /-- `Lambda(x, t)` on a closed well-typed `t` is well-typed of type `T ⇒ S` -/
 theorem checked_mkLambda (x : Term) (k : Nat) (n : String) (T : Ty) (hx : varKey x = some (k, n, T))
     (t l : Term) (S : Ty) (ht : Term.checkedGetType [] t = .ok S) (h : Term.mkLambda x t = .ok l) :
     Term.checkedGetType [] l = .ok (Ty.fn T S) := by
-  sorry
+  obtain ⟨b, hb, rfl⟩ := Term.mkLambda_inv hx h
+  have := Term.checkedGetType_abstractOverAt x k n T hx [] t b S hb ht
+  simp only [List.nil_append] at this
+  simp only [Term.checkedGetType, bind, Except.bind, this]
 
 /-- applying `Lambda(x, t)` to `v` is `t` with `x ↦ v` -/
 theorem appCode_sem_mkLambda (M : Model) (ρ : Valuation) (hρ : Admissible M ρ) (x : Term) (k : Nat)
@@ -61,20 +347,73 @@ theorem appCode_sem_mkLambda (M : Model) (ρ : Valuation) (hρ : Admissible M ρ
     (ht : Term.checkedGetType [] t = .ok S) (h : Term.mkLambda x t = .ok l) (v : Nat)
     (hv : v < M.size T) :
     appCode (sem M ρ [] [] l) v (M.size S) = sem M (ρ.update k n T v) [] [] t := by
-  sorry
+  obtain ⟨b, hb, rfl⟩ := Term.mkLambda_inv hx h
+  have hty := Term.checkedGetType_abstractOverAt x k n T hx [] t b S hb ht
+  have hcl := Term.closed_of_checked [] t S ht
+  have hs := sem_abstractOverAt M ρ x k n T hx [] [] rfl t b hb hcl v
+  simp only [List.nil_append] at hty hs
+  rw [appCode_sem_abs M ρ hρ [] [] Forall2.nil n T S b hty v hv, hs]
 
 /-- `Forall(x, t)` holds iff `t` holds for every value of `x` -/
 theorem holds_mkForall (M : Model) (ρ : Valuation) (hρ : Admissible M ρ) (x : Term) (k : Nat)
     (n : String) (T : Ty) (hx : varKey x = some (k, n, T)) (t q : Term)
     (ht : Term.checkedGetType [] t = .ok Ty.bool) (h : Term.mkForall x t = .ok q) :
     holds M ρ q ↔ ∀ v, v < M.size T → holds M (ρ.update k n T v) t := by
-  sorry
+  obtain ⟨l, hl, rfl⟩ := Term.mkForall_inv hx h
+  have hlt := checked_mkLambda x k n T hx t l Ty.bool ht hl
+  have hp : sem M ρ [] [] l < 2 ^ M.size T := by
+    have := sem_lt M ρ hρ [] [] Forall2.nil l _ hlt
+    rwa [Model.size_fn, Model.size_bool] at this
+  unfold holds
+  rw [sem_all M ρ [] [] T l hp]
+  constructor
+  · intro H v hv
+    have := appCode_sem_mkLambda M ρ hρ x k n T hx t l Ty.bool ht hl v hv
+    rw [Model.size_bool] at this
+    rw [← this]
+    exact H v hv
+  · intro H v hv
+    have := appCode_sem_mkLambda M ρ hρ x k n T hx t l Ty.bool ht hl v hv
+    rw [Model.size_bool] at this
+    rw [this]
+    exact H v hv
+
+/-- `all` is logical only at `(T ⇒ bool) ⇒ bool` -/
+theorem logicalKind_all {A T : Ty} {j : Nat} (hA : logicalKind "all" A = some (j, T)) :
+    A = Ty.fn (Ty.fn T Ty.bool) Ty.bool := by
+  unfold logicalKind at hA
+  split at hA
+  · next h => exact absurd h (by decide)
+  · next h => exact absurd h (by decide)
+  · simp only [Option.some.injEq, Prod.mk.injEq] at hA
+    obtain ⟨_, rfl⟩ := hA
+    rfl
+  · cases hA
 
 /-- the same for the body of an existing `all (λ…)`: instantiating the bound variable -/
 theorem holds_all_abs (M : Model) (ρ : Valuation) (hρ : Admissible M ρ) (A : Ty) (y : String) (T : Ty)
     (b : Term) (hb : Term.checkedGetType [T] b = .ok Ty.bool)
     (hA : logicalKind "all" A = some (2, T)) :
     holds M ρ (.comb (.const "all" A) (.abs y T b)) ↔ ∀ v, v < M.size T → sem M ρ [T] [v] b = 1 := by
-  sorry
+  have hAeq : A = Ty.fn (Ty.fn T Ty.bool) Ty.bool := logicalKind_all hA
+  subst hAeq
+  have hlt : Term.checkedGetType [] (.abs y T b) = .ok (Ty.fn T Ty.bool) := by
+    simp only [Term.checkedGetType, bind, Except.bind, hb]
+  have hp : sem M ρ [] [] (.abs y T b) < 2 ^ M.size T := by
+    have := sem_lt M ρ hρ [] [] Forall2.nil _ _ hlt
+    rwa [Model.size_fn, Model.size_bool] at this
+  unfold holds
+  rw [sem_all M ρ [] [] T _ hp]
+  constructor
+  · intro H v hv
+    have := appCode_sem_abs M ρ hρ [] [] Forall2.nil y T Ty.bool b hb v hv
+    rw [Model.size_bool] at this
+    rw [← this]
+    exact H v hv
+  · intro H v hv
+    have := appCode_sem_abs M ρ hρ [] [] Forall2.nil y T Ty.bool b hb v hv
+    rw [Model.size_bool] at this
+    rw [this]
+    exact H v hv
 
 end Holpy
